@@ -935,6 +935,9 @@ func TestEngineCrypto(t *testing.T) {
 			}
 			pass := hx.Pick(r, []string{"", "", "correct horse battery staple", "x"})
 			interactive := pass != "" || r.Chance(1, 3)
+			if j == 0 || j == 1 {
+				pass, interactive = "", false // (j = 0 is compared with the published address of the dev mnemonic: no passphrase)
+			}
 			if j == 2 {
 				pass, interactive = "correct horse battery staple", true
 			}
